@@ -84,6 +84,18 @@ def run_verus_unit(name, workdir, tier):
     except Exception as e:  # framework bug: undecided, never an alarm
         out["undecided"] = "framework error: %s\n%s" % (e, traceback.format_exc())
         return out
+    # thorough: proof stability -- the same file under two more Z3 seeds and half the default rlimit; an obligation that
+    # flips is reported as UNSTABLE (exit 2), never as a violation
+    if tier == "thorough" and not res.undecided and not res.diags:
+        unstable = []
+        for extra in (["--smt-option", "smt.random_seed=%d" % (7 + int(os.environ.get("VERIF_SEED", "0") or 0))],
+                      ["--smt-option", "smt.random_seed=1234567"],
+                      ["--rlimit", "5"]):
+            r3 = verus_run.run_verus(res.gen_path, g.text, g.linemap, name, g.fn_ranges, rlimit=None if "--rlimit" in extra else unit.get("rlimit"),
+                                     threads=4, extra_args=list(unit.get("verus_args", [])) + extra)
+            if r3.undecided or r3.diags:
+                unstable.append("%s -> %s" % (" ".join(extra), r3.undecided or "; ".join(d.obligation_name(name) for d in r3.diags[:3])))
+        out["stability"] = dict(variants=3, unstable=unstable)
     # vacuity pass
     try:
         u2 = dict(unit)
@@ -214,6 +226,7 @@ def main(argv):
         trusted = set()
         checker_cmds = []
         vacuity_report = []
+        stability_report = []
         for u in verus_units:
             r = results[("verus", u)]
             if "undecided" in r:
@@ -277,6 +290,11 @@ def main(argv):
                     known_hits.append((k, d, u))
                 else:
                     violations.append((u, d, res))
+            st = r.get("stability")
+            if st:
+                stability_report.append(dict(unit=u, variants=st["variants"], unstable=st["unstable"]))
+                if st["unstable"]:
+                    undecided.append("%s: unstable proof (passes with the default solver settings, fails under %s)" % (u, st["unstable"][0]))
             v = r.get("vacuity")
             if v:
                 vacuity_report.append(dict(unit=u, probes=len(v["expected"]), reached=len(v["reached"]),
@@ -354,6 +372,7 @@ def main(argv):
             bounded_checks=bounded,
             transformations_applied=sorted(transforms),
             vacuity=vacuity_report,
+            stability=stability_report,
             known_findings=[k.get("what", "") for k, _, _ in known_hits],
             undecided=undecided,
             samples=samples or [dict(note="no obligation generated")],
